@@ -1,7 +1,7 @@
 CONSTANTS
   Eps = {"n1", "n2"}
   Weps = {"e1", "e2"}
-  Parents = {"p1"}
+  Parents = {"p1", "p2"}
   SetIds = {"s1", "s2"}
   WithPorts = TRUE
   Small = FALSE
